@@ -10,7 +10,7 @@ From TLV Require Import Base.Shape Base.PyList Base.Tensor Base.Ops Model.Base M
      Proofs.SvdDecompTuckerErr Proofs.SvdDecompTuckerBound Proofs.SvdDecompHosvdBound
      Proofs.SvdDecompPartial Proofs.SvdDecompTuckerGen Proofs.SvdDecompRingErr Proofs.SvdDecompTTMErr
      Proofs.SvdDecompValidate Proofs.SvdDecompRingPartial Proofs.SvdDecompRingErrR
-     Proofs.SvdDecompRankCond Model.SvdDecompSymeig Proofs.SvdDecompSymeig Proofs.SvdDecompSymeigRing Proofs.SvdDecompSymeigEig Model.SvdDecompRand Proofs.SvdDecompRand Proofs.SvdDecompEckartYoung Proofs.SvdDecompTTUpper Proofs.SvdDecompMethodsTucker Proofs.SvdDecompTTRank Proofs.SvdDecompTTMRank Proofs.SvdDecompTuckerRank Proofs.SvdDecompHooiBound Proofs.SvdDecompRingRank Proofs.SvdDecompTuckerSemi Proofs.SvdDecompTuckerSemiEx Proofs.SvdDecompSymeigWide Proofs.SvdDecompRingUpper Proofs.SvdDecompRingCuts Proofs.SvdDecompRingRanks.
+     Proofs.SvdDecompRankCond Model.SvdDecompSymeig Proofs.SvdDecompSymeig Proofs.SvdDecompSymeigRing Proofs.SvdDecompSymeigEig Model.SvdDecompRand Proofs.SvdDecompRand Proofs.SvdDecompEckartYoung Proofs.SvdDecompTTUpper Proofs.SvdDecompMethodsTucker Proofs.SvdDecompTTRank Proofs.SvdDecompTTMRank Proofs.SvdDecompTuckerRank Proofs.SvdDecompHooiBound Proofs.SvdDecompRingRank Proofs.SvdDecompTuckerSemi Proofs.SvdDecompTuckerSemiEx Proofs.SvdDecompSymeigWide Proofs.SvdDecompRingUpper Proofs.SvdDecompRingCuts Proofs.SvdDecompRingRanks Proofs.SvdDecompRingEx.
 Import ListNotations.
 
 (* exactness of one TT-SVD step, over every commutative ring: truncating + sign-flipping a
@@ -1358,3 +1358,30 @@ Theorem C09_tensor_ring_ranks_respected : forall (F : Type) (Op : fops F) (svd :
   end.
 Proof. exact @tensor_ring_ranks_respected. Qed.
 Print Assumptions C09_tensor_ring_ranks_respected.
+
+(* non-vacuity of C09_tensor_ring_exact_from_x_rank_condition at ORDER 3 with ring bond 2 and a genuine loop step (zero tensor) *)
+Example C09_nonvacuous_tr_rank_condition_order3 :
+  let svd := fun (_ : nat) (_ : tensor R) => zans in
+  tr_sorted svd zX (inr [2; 1; 2; 2]) 0 /\ tr_x_rank_condition svd zX (inr [2; 1; 2; 2]) 0.
+Proof. exact tr_rank_condition_order3_satisfiable. Qed.
+
+(* tensor_ring returns EXACTLY the closed-form bonds (any carrier, any oracle, every start mode): with cores and request rotated to
+   the start mode, the bonds after the first core are min(previous bond * size, remaining size * rank[mode], request) - the ring
+   analogue of C09_tensor_train_realised_rank; transcribed as a Python predicate on every tensor_ring run *)
+Theorem C09_tensor_ring_realised : forall (F : Type) (Op : fops F) (svd : nat -> tensor F -> svdans)
+  (X : tensor F) (rank : rank_spec) (mode : nat) (cores : list (tensor F)),
+  tensor_ring Op svd X rank mode = Ok cores ->
+  match validate_tr_rank (ndim X) rank with
+  | Ok rk0 =>
+    let n := ndim X in
+    let rk := if Nat.eqb mode 0 then rk0 else tr_rotate_rank n mode rk0 in
+    let shp := if Nat.eqb mode 0 then shape X else permute 0 (rotate mode (seq 0 n)) (shape X) in
+    let fs := if Nat.eqb mode 0 then cores else rotate mode cores in
+    right_bonds (tl fs) = realised_body_r0 (nth 0 rk 0) (tl shp) (nth 1 rk 0) (skipn 2 rk)
+  | Err => False
+  end.
+Proof. exact @tensor_ring_realised. Qed.
+Print Assumptions C09_tensor_ring_realised.
+
+Example C09_nonvacuous_realised_body_r0 : realised_body_r0 2 [3; 2; 2] 2 [6; 1; 2] = [6; 1].
+Proof. exact realised_body_r0_instance. Qed.
